@@ -387,6 +387,15 @@ class World:
                 raise Injected('vote')
             inst.tpc_vote = vote
             patched.append(('tpc_vote', had))
+        elif fail and fail[0] == 'finish':
+            # the storage's own tpc_finish raises (before it does anything): the connection has voted, the
+            # transaction package calls tpc_abort — not abort — on it
+            had = inst.__dict__.get('tpc_finish')
+
+            def finish(*a, **kw):
+                raise Injected('finish')
+            inst.tpc_finish = finish
+            patched.append(('tpc_finish', had))
         before = self.last_tid()
         try:
             try:
@@ -401,9 +410,9 @@ class World:
                         self.unpatch_new_oid()
                     else:
                         if p[1] is None:
-                            del inst.tpc_vote
+                            delattr(inst, p[0])
                         else:
-                            inst.tpc_vote = p[1]
+                            setattr(inst, p[0], p[1])
         except Exception as e:
             self.after_boundary()
             r = 'fail:' + errname(e)
@@ -915,7 +924,7 @@ class Oracle:
                     kinds.add('Injected')
                 elif fail[0] == 'store' and int(fail[1]) < len(W):
                     kinds.add('Injected')
-                elif fail[0] == 'vote' and self.joined:
+                elif fail[0] in ('vote', 'finish') and self.joined:
                     kinds.add('Injected')
                 elif fail[0] == 'newoid' and self.joined and int(fail[1]) < len(newc):
                     kinds.add('Injected')       # the commit asks for an oid for every new object it discovers
@@ -1174,10 +1183,10 @@ def gen_case(rng, pid, size, kind):
                     ops.append('commitf ' + rng.choice(RM_FAILS))
                 elif c < 0.7:
                     ops.append('commitf store %d' % rng.choice([0, 0, 1, 1, 2, 3]))
-                elif c < 0.9:
+                elif c < 0.85:
                     ops.append('commitf pickle %d' % rng.randrange(1, n))
                 else:
-                    ops.append('commitf vote')
+                    ops.append(rng.choice(['commitf vote', 'commitf finish']))
             elif r < 0.83:
                 ops.append('abort')
             elif r < 0.85:
@@ -1228,10 +1237,10 @@ def gen_case(rng, pid, size, kind):
                     ops.append('commitf ' + rng.choice(RM_FAILS))
                 elif c < 0.6:
                     ops.append('commitf store %d' % rng.choice([0, 0, 1, 1, 2, 3]))
-                elif c < 0.9:
+                elif c < 0.85:
                     ops.append('commitf pickle %d' % rng.randrange(1, n))
                 else:
-                    ops.append('commitf vote')
+                    ops.append(rng.choice(['commitf vote', 'commitf finish']))
                 nsp = 0
             else:
                 ops.append('peek %d' % i)
@@ -1256,8 +1265,19 @@ def gen_scenario(rng, pid, kind):
         # a commit that fails while the state of one object is pickled — the registered container, an
         # implicitly added object in the middle of the writer's stack, or the last one — then the same
         # objects are linked again (the "repair" touches no object), committed, and read elsewhere
-        t = rng.randrange(9)
-        if t == 8:
+        t = rng.randrange(10)
+        if t == 9:
+            # the commit fails AFTER the connection voted — the storage's own tpc_finish raises, or a later manager's
+            # vote / an earlier manager's finish: the transaction package calls tpc_abort (not abort) on the
+            # connection; every new object belongs to nobody afterwards and can be attached again
+            ops = ['link 0 %d' % a, 'link %d %d' % (a, b)]
+            if rng.random() < 0.4:
+                ops += ['add %d' % c]
+            if rng.random() < 0.3:
+                ops += ['mod 0 %d' % val()]
+            ops += [rng.choice(['commitf finish', 'commitf finish', 'commitf rm after vote', 'commitf rm before finish']),
+                    'xadd %d' % a, 'xadd %d' % b, 'read 0', 'link 0 %d' % a, 'link %d %d' % (a, b), 'commit']
+        elif t == 8:
             # the storage's new_oid() fails while the commit discovers new objects: afterwards every new object
             # belongs to nobody (another connection may add it) and can be attached again
             ops = ['link 0 %d' % a, 'link %d %d' % (a, b)]
@@ -1416,7 +1436,7 @@ def gen_scenario(rng, pid, kind):
         ops = ['link 0 %d' % a, 'commit', 'mod %d %d' % (a, val()), 'link %d %d' % (a, b), 'sp',
                'mod %d %d' % (b, val()), 'sp', 'rb %d' % rng.choice([0, 1]),
                rng.choice(['abort', 'commitf rm after vote', 'commitf store 0', 'commitf store 1',
-                           'commitf rm before finish'])]
+                           'commitf rm before finish', 'commitf finish'])]
     else:           # explicit add, savepoint, rollback, add again
         ops = ['add %d' % a, 'mod %d %d' % (a, val()), 'sp', 'link %d %d' % (a, b), 'sp', 'rb 0',
                'read %d' % a, 'link 0 %d' % a, 'sp', 'rb 1', 'rb 0', rng.choice(['commit', 'abort'])]
